@@ -11,7 +11,7 @@ open Gen
 inductive XrefKind where | table | stream
   deriving Repr, DecidableEq
 
-structure Doc where
+structure SDoc where
   version : Bytes
   binaryMark : Bytes
   trailer : Dict
@@ -118,7 +118,7 @@ def xrefStreamIndex (secs : List (Nat × List (Nat × Nat))) : Obj :=
 /-- `save_internal` after `pre` bytes have already been written (`pre = []` for a plain save,
 the previous revisions for an incremental one): `none` when the binary mark is invalid (the
 only error the writer raises itself) -/
-def saveFrom (pre : Bytes) (d : Doc) : Option (Bytes × Doc) :=
+def saveFrom (pre : Bytes) (d : SDoc) : Option (Bytes × SDoc) :=
   if !(d.binaryMark.all fun b => b ≥ 128) then none else
   let header := pre ++ PDF_KW ++ d.version ++ [10] ++ [37] ++ d.binaryMark ++ [10]
   let (body, x) := writeObjects d.objects header []
@@ -145,11 +145,11 @@ def saveFrom (pre : Bytes) (d : Doc) : Option (Bytes × Doc) :=
     some (out, { d with trailer := tr6, maxId := newId })
 
 /-- `Document::save_to` -/
-def saveDoc (d : Doc) : Option (Bytes × Doc) := saveFrom [] d
+def saveDoc (d : SDoc) : Option (Bytes × SDoc) := saveFrom [] d
 
 /-- `IncrementalDocument::save_to`: the previously loaded bytes unchanged, a newline if they do
 not end with one, then the new revision (`d` = `new_document`, whose trailer carries `Prev`) -/
-def saveIncr (prev : Bytes) (d : Doc) : Option (Bytes × Doc) :=
+def saveIncr (prev : Bytes) (d : SDoc) : Option (Bytes × SDoc) :=
   saveFrom (prev ++ (match prev.getLast? with | none => [] | some b => if b = 10 then [] else [10])) d
 
 end Lopdf
